@@ -326,7 +326,7 @@ func driveC20(c *driverCtx) error {
 	useAll(c, rs, "3-reregistered-schema")
 	// step 4: interleaved further registrations in a seeded order
 	names := []string{"CEmail", "CCelsius", "CTags", "CPoint"}
-	for k := 0; k < c.pick(3, 12); k++ {
+	for k := 0; k < c.pick(3, 80); k++ {
 		n := names[c.rng.Intn(4)]
 		register(n)
 		if c.rng.Intn(2) == 0 && n == "CCelsius" {
